@@ -20,6 +20,8 @@ def _decode(factory, text, tz):
         v = factory(factory.from_ical(text, tz)) if tz is not None else factory(factory.from_ical(text))
     except ValueError:
         return '!'
+    except Exception as e:  # noqa: BLE001
+        return '=' + enc('\x00raised-' + type(e).__name__)
     return '=' + enc(value_text(v))
 
 
@@ -91,19 +93,32 @@ def modelled_text(text):
     return True
 
 
+def raised_in(exc, func_name):
+    """does the traceback of exc, or of an exception it was raised from, pass through func_name?"""
+    seen = set()
+    while exc is not None and id(exc) not in seen:
+        seen.add(id(exc))
+        tb = exc.__traceback__
+        while tb is not None:
+            if tb.tb_frame.f_code.co_name == func_name:
+                return True
+            tb = tb.tb_next
+        exc = exc.__cause__ or exc.__context__
+    return False
+
+
 def impl_parse(data, multiple):
     from icalendar import Component
     try:
         res = Component.from_ical(data, multiple=multiple)
     except ValueError as e:
-        tb = e.__traceback__
-        while tb is not None:
-            if tb.tb_frame.f_code.co_name == 'cache_timezone_component':
-                # building a time zone object from a malformed VTIMEZONE failed (C12's subject; the
-                # stack-machine model has no VTIMEZONE interpretation)
-                return None, 'skip:tz-creation'
-            tb = tb.tb_next
+        if raised_in(e, 'cache_timezone_component'):
+            # building a time zone object from a malformed VTIMEZONE failed (C12's subject; the
+            # stack-machine model abstracts it as `tzok`, instantiated with "always succeeds")
+            return None, 'skip:tz-creation'
         return None, 'err:ValueError'
+    except Exception as e:  # noqa: BLE001
+        return None, 'err:' + type(e).__name__      # never expected; disagrees with the model
     comps = res if multiple else [res]
     log = []
     for c in comps:
